@@ -37,15 +37,18 @@ LEVEL_TEXT = ("Carried by Lean theorems (Props/C07.lean): for any machine, N, pr
               "shared state every thread ends with its sequential private state and output (noninterference, "
               "interleaving_eq_sequential, sequential_is_solo), and if steps write only synchronised shared locations no trace has "
               "a race (race_free). Carried by `decide` over the table regenerated from the current tree (execution_readonly_partial, "
-              "transform_touches_no_process_table_partial, table_race_free_partial): every construct through which const execution "
+              "guards_imply_mapping_phase_partial, transform_touches_no_process_table_partial, table_race_free_partial): every construct "
+              "through which const execution "
               "could write a shared object (mutable members, const_casts, non-const calls through pointer members, local statics, "
-              "lazily headed containers) or through which the per-thread objects (XalanTransformer, XSLTEngineImpl, the execution "
+              "lazily headed containers; for the Xerces wrapper the guard condition of every const call into its mutators is extracted and "
+              "shown to imply the mapping phase) or through which the per-thread objects (XalanTransformer, XSLTEngineImpl, the execution "
               "contexts, the env-support classes, StylesheetRoot::process) reach a process-wide variable is listed and classified as "
               "no unsynchronised shared write. Carried by ThreadSanitizer enumeration only: that each classification is true of the "
               "C++, that the inventory misses nothing, and the behaviour of the built library (generated stylesheets over keys, "
               "xsl:number, document(), format-number, sort, id(), extension functions... x native / thread-safe Xerces / "
-              "parseSource-Xerces sources x sharing kinds x private configuration; byte-equal outputs; any report = violation with "
-              "replay).")
+              "thread-safe Xerces with setIdAttribute IDs / parseSource-Xerces sources x sharing kinds x private configuration; "
+              "byte-equal outputs; any TSan report, and any allocation inside a shared object while the threads run (counting "
+              "MemoryManager, string-pool mutex excepted) = violation with replay).")
 LEVEL_NOTE = ("Partial proof. Trusted: Lean kernel; axioms propext/Classical.choice/Quot.sound only; translate/c07_share.py "
               "(regular-expression inventory and call graph; cross-checked class by class and edge by edge against clang's typed "
               "AST in the thorough tier; not a completeness proof: writes through pointer members are tracked one call deep, the call "
@@ -61,17 +64,20 @@ DESIGN_REF = "DESIGN.md section 5, C07; design/C07.md"
 P = "XalanModel.Props.C07."
 THEOREMS = [P + t for t in (
     "noninterference", "noninterference_readonly", "interleaving_eq_sequential", "sequential_is_solo", "race_free",
-    "execution_readonly_partial", "transform_touches_no_process_table_partial", "tableMachine_writesOnlySync", "table_race_free_partial",
+    "execution_readonly_partial", "guards_imply_mapping_phase_partial", "transform_touches_no_process_table_partial", "tableMachine_writesOnlySync", "table_race_free_partial",
     "table_outputs_schedule_independent", "lazy_listhead_interference_counterexample",
     "forced_listhead_schedule_independent", "nullhead_schedule_independent", "nopool_counterexample", "mapping_mode_counterexample")]
 
 # inside the property's quantifier: native source tree; a caller's Xerces DOM wrapped in thread-safe mode
 # (XercesDOMWrapperParsedSource); and what XalanTransformer::parseSource(.., useXercesDOM=true) builds (XercesDOMParsedSource:
 # the documentation promises that parsed sources can be shared, so it has to be thread-safe mode too)
-SAFE_MODES = ["default", "xerces-ts", "xerces-default"]
+# xerces-ts-setid: as xerces-ts, on a DOM whose ID attributes were marked with DOMElement::setIdAttribute (no DTD needed): id() then
+# reaches XercesDocumentWrapper::mapNode for elements the pre-built wrapper did not put into its node map
+SAFE_MODES = ["default", "xerces-ts", "xerces-ts-setid", "xerces-default"]
 # outside it (XercesParserLiaison used directly with setThreadSafe(false) / setBuildWrapperNodes(false)): the model predicts races
 CONTROL_MODES = ["xerces-nopool", "xerces-mapping"]
 TIMEOUT = 300
+HARNESS_EXTRA = ["-ldl"]       # the allocation probe resolves its stack with dladdr
 
 
 def setup():
@@ -79,8 +85,8 @@ def setup():
     tree (~5 min cold, incremental afterwards), the normal build, both harness binaries.  Called by `./check --setup`."""
     common.build_repo("tsan")
     common.build_repo("hooks")
-    common.build_harness("c07_threads", ["c07_threads.cpp"], flavor="tsan")
-    common.build_harness("c07_threads", ["c07_threads.cpp"], flavor="hooks", sanitize=False)
+    common.build_harness("c07_threads", ["c07_threads.cpp"], flavor="tsan", extra=HARNESS_EXTRA)
+    common.build_harness("c07_threads", ["c07_threads.cpp"], flavor="hooks", sanitize=False, extra=HARNESS_EXTRA)
     return 0
 
 
@@ -245,6 +251,12 @@ def parse_run(line):
         return None
     jobs = []
     diff = ""
+    probe = None
+    if "PROBE" in t:
+        k = t.index("PROBE")
+        kv = dict(x.split("=", 1) for x in t[k + 1:] if "=" in x)
+        probe = {"allowed": int(kv.get("allowed", "0")), "bad": int(kv.get("bad", "0")), "first": kv.get("first", "")}
+        t = t[:k]
     for i, w in enumerate(t[3:]):
         if w == "DIFF":
             diff = " ".join(t[3 + i:])
@@ -253,7 +265,7 @@ def parse_run(line):
         if m:
             jobs.append({"job": m.group(1), "rc": int(m.group(2)), "hash": m.group(3), "len": int(m.group(4)),
                          "equal": int(m.group(5)), "total": int(m.group(6))})
-    return {"label": t[1], "jobs": jobs, "diff": diff}
+    return {"label": t[1], "jobs": jobs, "diff": diff, "probe": probe}
 
 
 # ---------------------------------------------------------------------------------------------- the cases
@@ -358,8 +370,8 @@ def run(ctx):
         ctx.checker_cmds.append("python3 translate/_c07_ast.py")
     ctx.lean("XalanModel.Props.C07", THEOREMS, extra_targets=["xm_c07"])
     model = ctx.exe("xm_c07")
-    h_tsan = common.build_harness("c07_threads", ["c07_threads.cpp"], flavor="tsan")
-    h_plain = common.build_harness("c07_threads", ["c07_threads.cpp"], flavor="hooks", sanitize=False)
+    h_tsan = common.build_harness("c07_threads", ["c07_threads.cpp"], flavor="tsan", extra=HARNESS_EXTRA)
+    h_plain = common.build_harness("c07_threads", ["c07_threads.cpp"], flavor="hooks", sanitize=False, extra=HARNESS_EXTRA)
     work = os.path.join(common.CACHE, "work", "c07_%s_%d" % (ctx.tier, ctx.seed))
     shutil.rmtree(work, ignore_errors=True)
     os.makedirs(work, exist_ok=True)
@@ -410,7 +422,8 @@ def run(ctx):
             runs.append(("k_" + sid, ["%s:%s:%s" % (sid, src, c["kind"])]))
     for sid, sh in sheets.items():
         if sh.get("single"):
-            runs.append(("f_" + sid, ["%s:%s0.%s:b" % (sid, fl, m) for fl in ("ids", "plain", "bare") for m in SAFE_MODES]))
+            runs.append(("f_" + sid, ["%s:%s0.%s:b" % (sid, fl, m) for fl in ("ids", "plain", "bare") for m in SAFE_MODES
+                                      if not (fl == "ids" and m == "xerces-ts-setid")]))
             runs.append(("Cf_" + sid, ["%s:ids0.default:b" % sid, "%s:bare0.xerces-default:b" % sid, "%s:plain0.xerces-ts:b" % sid]))
     gsheets = [s for s in sheets if s.startswith("s")]
     for i in range(nruns):
@@ -433,9 +446,9 @@ def run(ctx):
 
     def exec_runs(exe, tsan, runs, nt, rd, tag):
         """one harness process per chunk of runs (so that a TSan report can be attributed to a chunk cheaply)"""
-        res = []
         chunk = 6
-        for a in range(0, len(runs), chunk):
+
+        def one(a):
             part = runs[a:a + chunk]
             us = set(j.split(":")[0] for _, js in part for j in js)
             ud = set(j.split(":")[1] for _, js in part for j in js)
@@ -448,8 +461,11 @@ def run(ctx):
                     parsed[pr["label"]] = pr
                 elif l.startswith("run "):
                     parsed[l.split(" ")[1]] = {"label": l.split(" ")[1], "jobs": [], "diff": l}
-            res.append({"runs": part, "parsed": parsed, "err": err, "rc": rc})
-        return res
+            return {"runs": part, "parsed": parsed, "err": err, "rc": rc}
+        # the chunks are independent processes: run a few at a time (each uses `nt` threads; more contention = more interleavings)
+        from concurrent.futures import ThreadPoolExecutor
+        with ThreadPoolExecutor(max_workers=max(1, min(4, common.NPROC // max(1, nt) + 1))) as ex:
+            return list(ex.map(one, range(0, len(runs), chunk)))
 
     def single_job_reports(job, nt, rd, tag, label="x"):
         s, d, _ = job.split(":")
@@ -495,6 +511,33 @@ def run(ctx):
                         ctx.fail("diff:%s:%s:%s facilities=%s" % (sources[d]["mode"], sources[d]["flavour"], k, ",".join(sorted(fac))),
                                  "a thread's output differs from the sequential output (%d/%d equal): %s\n--- sequential\n%s\n--- thread\n%s" % (
                                      jr["equal"], jr["total"], pr["diff"], seq, thr), inp, build="tsan" if tsan else "plain")
+                if pr and pr.get("probe"):
+                    ctx.hist["probe:allocations-under-pool-mutex"] = ctx.hist.get("probe:allocations-under-pool-mutex", 0) + pr["probe"]["allowed"]
+                    ctx.hist["probe:runs"] = ctx.hist.get("probe:runs", 0) + 1
+                if pr and pr.get("probe") and pr["probe"]["bad"] > 0:
+                    # something allocated inside a shared object while the threads ran: find one job that does it
+                    first = pr["probe"]["first"]
+                    site = first.split(":", 1)[-1].split(";")
+                    inner = site[0] if site else "?"
+                    outer = next((x for x in site if not re.match(r"(Xalan(MemMgr|Allocat|Construct)|ArenaAllocator|ArenaBlock|ReusableArena|Xalan(Vector|List|Map|Deque)|MemoryManaged)", x.split("::")[0])), inner)
+                    culpritj = None
+                    for j in jobs:
+                        s, d, _ = j.split(":")
+                        lines = decl_lines(sheets, sources, [s], [d]) + [run_line(xl(label), [j], nt, rd)]
+                        o2, e2, rc2 = run_harness(h_plain, lines, work, False, tag + "_probe")
+                        p2 = next((parse_run(l) for l in o2 if l.startswith("run ")), None)
+                        if p2 and p2.get("probe") and p2["probe"]["bad"] > 0:
+                            culpritj = (j, p2["probe"])
+                            break
+                    js = [culpritj[0]] if culpritj else jobs
+                    modes = sorted(set(sources[j.split(":")[1]]["mode"] for j in js))
+                    key = "alloc-in-shared:%s via %s mode=%s" % (outer, inner, "+".join(modes))
+                    if key not in seen_keys:
+                        seen_keys[key] = {"count": 1}
+                        ctx.fail(key, "allocation probe: %d allocation(s)/deallocation(s) inside a SHARED object (compiled stylesheet / parsed source, "
+                                      "built on the probe MemoryManager) while the threads were transforming, not under the string-pool mutex; "
+                                      "first stack (library frames, innermost first): %s" % (pr["probe"]["bad"], first),
+                                 case_input(sheets, sources, run_line(xl(label), js, nt, rd), js, work), build="tsan" if tsan else "plain")
                 if pr is None or (pr and not pr["jobs"]):
                     if not crashed:
                         ctx.oblige("harness completed run %s" % label, "machinery", False, str(pr) + ch["err"][-800:])
@@ -563,11 +606,17 @@ def run(ctx):
                             "calls safe. model on the stack's functions: %s\n%s" % (rep["kind"], "; ".join(known_to_model)[:600] or "no table entry mentions them", rep["raw"][:3500]),
                          inp, build="tsan", report=rep["raw"][:6000])
 
+    import time as _time
+    _t0 = _time.time()
     chunks = exec_runs(h_tsan, True, runs, nthreads, rounds, "tsan")
     judge(chunks, True, nthreads, rounds, "tsan")
+    ctx.extra["seconds_tsan_runs"] = round(_time.time() - _t0, 1)
+    _t0 = _time.time()
     # the same runs against the normal build, more threads and rounds, outputs only
     chunks2 = exec_runs(h_plain, False, runs, nthreads * 2, rounds * (4 if ctx.thorough else 2), "plain")
     judge(chunks2, False, nthreads * 2, rounds * (4 if ctx.thorough else 2), "plain")
+    ctx.extra["seconds_plain_runs"] = round(_time.time() - _t0, 1)
+    ctx.extra["seconds_before_runs"] = round(_t0 - ctx.t0 - ctx.extra["seconds_tsan_runs"], 1)
     ctx.extra["tsan_reports_outside_instrumented_code"] = outside
     ctx.extra["tsan_distinct_report_keys"] = sorted(seen_keys)
 
@@ -611,7 +660,7 @@ def replay(ctx, path):
         return 1
     inp = first["input"]
     ctx.build("tsan")
-    h_tsan = common.build_harness("c07_threads", ["c07_threads.cpp"], flavor="tsan")
+    h_tsan = common.build_harness("c07_threads", ["c07_threads.cpp"], flavor="tsan", extra=HARNESS_EXTRA)
     work = os.path.join(common.CACHE, "work", "c07_replay")
     shutil.rmtree(work, ignore_errors=True)
     os.makedirs(work, exist_ok=True)
